@@ -16,6 +16,8 @@ Proof. reflexivity. Qed.
 
 Section Repr.
   Variable V : Type.
+  Variable veqb : V -> V -> bool.
+  Variable add : V -> V -> V.
 
   Notation entry := (idx * V)%type.
 
@@ -646,28 +648,46 @@ Section Repr.
     rewrite Hs. destruct c; reflexivity.
   Qed.
 
-  Theorem gcxs_reshape_repr_proof (c : coo V) ca new :
-    canonical V c -> shape_ok (c_shape c) -> axes_ok (c_shape c) ca -> (1 <= length (c_shape c))%nat ->
-    (forall c', ShapeOps.coo_reshape c new = Ok c' -> (1 <= length (c_shape c'))%nat ->
-       exists ca', gcxs_reshape (gcxs_from_coo c ca) new = Some (Ok (gcxs_from_coo c' ca')) /\ axes_ok (c_shape c') ca') /\
-    (forall e, ShapeOps.coo_reshape c new = Raise e -> gcxs_reshape (gcxs_from_coo c ca) new = Some (Raise e)).
+  Lemma default_caxes_ok sh' : axes_ok sh' (default_caxes sh').
   Proof.
-    intros Hc Hok Hax Hn1. unfold gcxs_reshape. rewrite g_shape_from_coo, (gcxs_reshape_shape_eq _ _ Hok).
+    unfold axes_ok, default_caxes. destruct (Nat.leb_spec 2 (length sh')) as [H|H]; [right|left; lia].
+    apply argmin_caxes_ok. exact H.
+  Qed.
+
+  Theorem gcxs_reshape_repr_proof (c : coo V) ca new :
+    canonical V c -> shape_ok (c_shape c) -> axes_ok (c_shape c) ca ->
+    (forall c', ShapeOps.coo_reshape c new = Ok c' ->
+       exists ca', gcxs_reshape veqb add (gcxs_from_coo c ca) new = Some (Ok (gcxs_from_coo c' ca')) /\ axes_ok (c_shape c') ca') /\
+    (forall e, ShapeOps.coo_reshape c new = Raise e -> gcxs_reshape veqb add (gcxs_from_coo c ca) new = Some (Raise e)).
+  Proof.
+    intros Hc Hok Hax. unfold gcxs_reshape. rewrite g_shape_from_coo, (gcxs_reshape_shape_eq _ _ Hok).
     rewrite coo_reshape_cases. destruct (idx_eqb (c_shape c) new) eqn:Eid.
     - apply idx_eqb_eq in Eid. subst new. rewrite (coo_reshape_shape_self _ Hok), idx_eqb_refl.
-      split; [|intros e H; discriminate]. intros c' H _. inversion H; subst. exists ca. auto.
+      split; [|intros e H; discriminate]. intros c' H. inversion H; subst. exists ca. auto.
     - destruct (coo_reshape_shape (c_shape c) new) as [sh'|e] eqn:Es; [|split; [intros c' H; discriminate|intros e' H; congruence]].
       split; [|intros e' H; discriminate].
-      intros c' H Hn1'. inversion H as [Hc'']. clear H. try subst c'. cbn [c_shape ShapeOps.coo_make] in Hn1'.
+      intros c' H. inversion H as [Hc'']. clear H. try subst c'.
       fold (rphi (c_shape c) sh'). fold (reshaped c sh').
       destruct (coo_reshape_shape_facts V c new sh' Es) as [Hok' Hsz].
       destruct (idx_eqb (c_shape c) sh') eqn:Esame.
       + apply idx_eqb_eq in Esame. subst sh'. rewrite (reshaped_same c Hc Hok). exists ca. auto.
-      + remember (c_shape c) as sh0 eqn:Esh0 in |- *.
-        destruct sh0 as [|d [|d2 t]]; [rewrite <- Esh0 in Hn1; simpl in Hn1; lia| |].
+      + (* the detour through COO for a 0-d source or target *)
+        assert (Hvia : via_coo veqb add (gcxs_from_coo c ca) (fun c0 => ShapeOps.coo_reshape c0 sh')
+                       = Ok (gcxs_from_coo (reshaped c sh') (default_caxes sh'))).
+        { unfold via_coo. rewrite (tocoo_from_coo_proof V veqb add c ca Hc Hok Hax).
+          rewrite coo_reshape_cases, Esame.
+          assert (Hs' : coo_reshape_shape (c_shape c) sh' = Ok sh').
+          { rewrite (reshape_minus1_spec_proof _ _ Hok). apply np_reshape_target_same_size; assumption. }
+          rewrite Hs'. reflexivity. }
+        remember (c_shape c) as sh0 eqn:Esh0 in |- *.
+        destruct sh0 as [|d [|d2 t]].
+        * (* 0-d source *)
+          exists (default_caxes sh'). split; [|apply default_caxes_ok].
+          destruct sh'; [rewrite <- Esh0 in Esame; discriminate|]. rewrite Hvia. reflexivity.
         * (* 1-d source *)
           symmetry in Esh0.
-          destruct sh' as [|e1 [|e2 t']]; [simpl in Hn1'; lia| |].
+          destruct sh' as [|e1 [|e2 t']].
+          -- exists (default_caxes []). split; [rewrite Hvia; reflexivity|apply default_caxes_ok].
           -- exfalso. rewrite Esh0 in Hsz, Esame. simpl in Hsz. assert (e1 = d) by lia. subst.
              simpl in Esame. rewrite Z.eqb_refl in Esame. discriminate.
           -- exists [argmin (e1 :: e2 :: t')]. split.
@@ -678,7 +698,8 @@ Section Repr.
         * (* n-d source *)
           assert (Hnd : (2 <= length (c_shape c))%nat) by (rewrite <- Esh0; simpl; lia).
           destruct Hax as [Hax|Hca]; [lia|].
-          destruct sh' as [|e1 [|e2 t']]; [simpl in Hn1'; lia| |].
+          destruct sh' as [|e1 [|e2 t']].
+          -- exists (default_caxes []). split; [rewrite Hvia; reflexivity|apply default_caxes_ok].
           -- exists []. split; [|left; simpl; lia]. f_equal. f_equal.
              assert (Hs1 : size (c_shape c) = e1) by (rewrite <- Hsz; simpl; lia).
              apply (gcxs_reshape_nd_1_repr c ca e1 Hc Hok Hca Hnd Hs1).
@@ -693,9 +714,19 @@ Section Repr.
              apply (gcxs_reshape_nd_nd_repr c ca ca' sh' Hc Hok Hca Hnd Hok' Hsz Hca'). unfold sh'. simpl; lia.
   Qed.
 
+  (* GCXS.squeeze / broadcast_to: the COO function on tocoo(), recompressed *)
+  Theorem gcxs_via_coo_repr_proof (c : coo V) ca (f : coo V -> res (coo V)) :
+    canonical V c -> shape_ok (c_shape c) -> axes_ok (c_shape c) ca ->
+    via_coo veqb add (gcxs_from_coo c ca) f
+    = match f c with Ok c' => Ok (gcxs_from_coo c' (default_caxes (c_shape c'))) | Raise e => Raise e end.
+  Proof.
+    intros Hc Hok Hax. unfold via_coo. rewrite (tocoo_from_coo_proof V veqb add c ca Hc Hok Hax).
+    destruct (f c); reflexivity.
+  Qed.
+
   (* ================================================================ dense meaning and well-formedness *)
-  Let dummy_eqb : V -> V -> bool := fun _ _ => true.
-  Let dummy_add : V -> V -> V := fun a _ => a.
+  Let dummy_eqb : V -> V -> bool := veqb.
+  Let dummy_add : V -> V -> V := add.
 
   Theorem gcxs_transpose_den_proof (c : coo V) ca axes r :
     canonical V c -> shape_ok (c_shape c) -> axes_ok (c_shape c) ca ->
@@ -721,33 +752,20 @@ Section Repr.
   Qed.
 
   Theorem gcxs_reshape_den_proof (c : coo V) ca new r :
-    canonical V c -> shape_ok (c_shape c) -> axes_ok (c_shape c) ca -> (1 <= length (c_shape c))%nat ->
-    gcxs_reshape (gcxs_from_coo c ca) new = Some (Ok r) -> (1 <= length (g_shape r))%nat ->
+    canonical V c -> shape_ok (c_shape c) -> axes_ok (c_shape c) ca ->
+    gcxs_reshape veqb add (gcxs_from_coo c ca) new = Some (Ok r) ->
     gcxs_wfb r = true /\
     size (g_shape r) = size (c_shape c) /\ g_fill r = c_fill c /\
-    ((count_m1 new <= 1)%nat -> np_reshape_target (c_shape c) new = Ok (g_shape r)) /\
+    np_reshape_target (c_shape c) new = Ok (g_shape r) /\
     forall ix, in_range (g_shape r) ix ->
       gden r ix = np_reshape (c_shape c) (g_shape r) (gden (gcxs_from_coo c ca)) ix.
   Proof.
-    intros Hc Hok Hax Hn1 Hr Hn1'.
-    destruct (gcxs_reshape_repr_proof c ca new Hc Hok Hax Hn1) as [HOk HRaise].
+    intros Hc Hok Hax Hr.
+    destruct (gcxs_reshape_repr_proof c ca new Hc Hok Hax) as [HOk HRaise].
     destruct (ShapeOps.coo_reshape c new) as [c'|e] eqn:Ec; [|rewrite (HRaise e eq_refl) in Hr; discriminate].
     destruct (reshape_den_proof V c Hc Hok new c' Ec) as [Hok' [Hsz [Hf [Ht Hd]]]].
     destruct (reshape_canonical_proof V dummy_eqb c Hc Hok new c' Ec) as [Hc' _].
-    assert (Hshape : g_shape r = c_shape c').
-    { (* the GCXS model computes its target shape as the COO model does *)
-      unfold gcxs_reshape in Hr. rewrite g_shape_from_coo, (gcxs_reshape_shape_eq _ _ Hok) in Hr.
-      rewrite coo_reshape_cases in Ec. destruct (idx_eqb (c_shape c) new) eqn:Eid.
-      - apply idx_eqb_eq in Eid. subst new. inversion Ec; subst c'.
-        rewrite (coo_reshape_shape_self _ Hok), idx_eqb_refl in Hr. inversion Hr; subst r. apply g_shape_from_coo.
-      - destruct (coo_reshape_shape (c_shape c) new) as [sh'|e] eqn:Es; [|discriminate].
-        inversion Ec; subst c'. cbn [c_shape ShapeOps.coo_make].
-        destruct (idx_eqb (c_shape c) sh') eqn:Esame.
-        + apply idx_eqb_eq in Esame. inversion Hr; subst r. rewrite g_shape_from_coo. exact Esame.
-        + destruct (c_shape c) as [|d [|d2 t]]; destruct sh' as [|e1 [|e2 t']]; try discriminate;
-            inversion Hr; subst r; reflexivity. }
-    rewrite Hshape in Hn1'.
-    destruct (HOk c' eq_refl Hn1') as [ca' [Hg Hax']]. rewrite Hg in Hr. inversion Hr; subst r. clear Hr.
+    destruct (HOk c' eq_refl) as [ca' [Hg Hax']]. rewrite Hg in Hr. inversion Hr; subst r. clear Hr.
     split; [apply (gcxs_from_coo_wf_proof V dummy_eqb dummy_add); assumption|].
     rewrite g_shape_from_coo, g_fill_from_coo. split; [exact Hsz|]. split; [exact Hf|]. split; [exact Ht|].
     intros ix Hi. rewrite (gcxs_from_coo_den_proof V dummy_eqb dummy_add c' ca' ix Hc' Hok' Hax').
@@ -762,6 +780,6 @@ Example gcxs_example :
   let g := gcxs_from_coo c [1] in
   canonical Z c /\ gcxs_wfb g = true /\
   gcxs_transpose g (Some [2; 0; 1]) = Ok (gcxs_from_coo (mkCOO [3; 2; 2] [[0; 1; 0]; [1; 0; 0]; [1; 1; 1]; [2; 0; 1]] [6; 4; 7; 5] 0) [1]) /\
-  gcxs_reshape g [3; -1] = Some (Ok (gcxs_from_coo (mkCOO [3; 4] [[0; 1]; [1; 1]; [1; 2]; [2; 2]] [4; 5; 6; 7] 0) [0])) /\
-  gcxs_flatten g = Some (Ok (gcxs_from_coo (mkCOO [12] [[1]; [5]; [6]; [10]] [4; 5; 6; 7] 0) [])).
+  gcxs_reshape Z.eqb Z.add g [3; -1] = Some (Ok (gcxs_from_coo (mkCOO [3; 4] [[0; 1]; [1; 1]; [1; 2]; [2; 2]] [4; 5; 6; 7] 0) [0])) /\
+  gcxs_flatten Z.eqb Z.add g = Some (Ok (gcxs_from_coo (mkCOO [12] [[1]; [5]; [6]; [10]] [4; 5; 6; 7] 0) [])).
 Proof. cbv zeta. split; [apply canonical_of_b; reflexivity|]. repeat split; vm_compute; reflexivity. Qed.
